@@ -70,6 +70,7 @@ pub struct SrcState {
 #[derive(Clone)]
 pub struct ScriptSrc(pub Rc<RefCell<SrcState>>);
 
+pub const EOF_NOW: usize = 1_000_000;
 pub const HANG_MSG: &str = "VERIF-HANG: source call budget exceeded";
 
 impl ScriptSrc {
@@ -124,6 +125,10 @@ impl Read for ScriptSrc {
         let mut n = want.min(avail);
         if c > 0 {
             n = n.min(c);
+        }
+        // chunk value 1 000 000: this call reports the end of the input (0 bytes) although data remain
+        if c == EOF_NOW {
+            n = 0;
         }
         let p = s.pos.min(s.data.len());
         buf[..n].copy_from_slice(&s.data[p..p + n]);
